@@ -37,6 +37,8 @@ TxAlphabet ==
   \cup { Tx(<<[t |-> "SClaim", sender |-> "A3", receiver |-> "A1"]>>), Tx(<<[t |-> "SCancel", sender |-> "A3", receiver |-> "A2"]>>) }
   \cup { Tx(<<[t |-> "Send", from |-> "A1", to |-> "stream", amt |-> 5, denom |-> "nund"]>>) }
   \cup { Tx(<<SCreate("stream", "A1", 60, "nund", 1)>>), Tx(<<SCreate("A1", "A1", 60, "nund", 1)>>), Tx(<<SCreate("A2", "A1", 59, "nund", 1)>>) }
+  \* receivers the bank refuses to pay, also in the upper-case spelling of their address (the same account)
+  \cup { Tx(<<SCreate(r, "A1", 60, "nund", 1) @@ [enc |-> e]>>) : r \in {"feecol", "ent"}, e \in {"lower", "upper"} }
   \cup { Tx(<<[t |-> "SClaim", sender |-> "A1", receiver |-> "A2"], [t |-> "Send", from |-> "A2", to |-> "A3", amt |-> 1, denom |-> "nund"]>>) }
   \* a stream created and topped up inside a transaction that is rolled back (the pair stays free)
   \cup { Tx(<<SCreate("A2", "A1", 60, "nund", 1), [t |-> "STopUp", sender |-> "A1", receiver |-> "A2", dep |-> 60, denom |-> "nund"], SCreate("A2", "A1", 60, "nund", 1)>>) }
